@@ -89,24 +89,30 @@ def log2(x):
     return x.bit_length() - 1
 
 
-def build(cfg):
+def build(cfg, upto=None):
     from amaranth_soc import wishbone
     from amaranth_soc.memory import MemoryMap
+    subs = []
+
+    def add(dec, i):
+        sc = cfg["subs"][i]
+        sdw = sc.get("sdw", cfg["dw"])
+        sg = sc.get("sg", sdw if sc["sparse"] else cfg["g"])
+        sb = wishbone.Interface(addr_width=sc["aw"], data_width=sdw, granularity=sg, features=sc["feat"], path=(f"sub{i}",))
+        sb.memory_map = MemoryMap(addr_width=max(1, sc["aw"] + log2(sdw // sg)), data_width=sg, alignment=sc.get("salign", 0))
+        if sc.get("align_to") is not None:
+            dec.align_to(sc["align_to"])
+        dec.add(sb, name=sc["name"], addr=sc["addr"], sparse=sc["sparse"])
+        subs.append(sb)
     try:
         dec = wishbone.Decoder(addr_width=cfg["aw"], data_width=cfg["dw"], granularity=cfg["g"], features=cfg["feat"],
                                alignment=cfg["align"])
-        subs = []
-        for i, sc in enumerate(cfg["subs"]):
-            sdw = sc.get("sdw", cfg["dw"])
-            sg = sc.get("sg", sdw if sc["sparse"] else cfg["g"])
-            sb = wishbone.Interface(addr_width=sc["aw"], data_width=sdw, granularity=sg, features=sc["feat"], path=(f"sub{i}",))
-            sb.memory_map = MemoryMap(addr_width=max(1, sc["aw"] + log2(sdw // sg)), data_width=sg, alignment=sc.get("salign", 0))
-            if sc.get("align_to") is not None:
-                dec.align_to(sc["align_to"])
-            dec.add(sb, name=sc["name"], addr=sc["addr"], sparse=sc["sparse"])
-            subs.append(sb)
+        for i in range(len(cfg["subs"]) if upto is None else upto):
+            add(dec, i)
     except (ValueError, TypeError) as e:
         raise Refused(str(e))
+    if upto is not None:
+        return dec, subs, lambda i: add(dec, i)
     return dec, subs
 
 
